@@ -7,12 +7,13 @@ static const char *const RAT[] = { NULL };
 
 enum { R_GSSV, R_GSSVX, R_GSISX, R_GSTRS, R_GSRFS, R_GSCON, R_GSEQU, R_TRSV, R_GEMV, NROUT };
 /* corruption of a SuperMatrix header */
-enum { M_NONSQUARE, M_NEGATIVE, M_STYPE, M_DTYPE1, M_DTYPE2, M_DTYPE3, M_MTYPE, M_NKINDS };
+enum { M_NONSQUARE, M_NEGATIVE, M_STYPE, M_DTYPE1, M_DTYPE2, M_DTYPE3, M_MTYPE, M_NONSQUARE_ROWS, M_NKINDS };
 static void corrupt_matrix(SuperMatrix *M, int kind, const vf_type *T)
 {
     static const Dtype_t dts[] = { SLU_S, SLU_D, SLU_C, SLU_Z };
     switch (kind) {
     case M_NONSQUARE: M->ncol = M->ncol + 1; break;
+    case M_NONSQUARE_ROWS: M->nrow = M->nrow + 1; break;     /* one row more than columns: also more rows than the leading dimension of B and X */
     case M_NEGATIVE: M->nrow = -1; M->ncol = -1; break;
     case M_STYPE: M->Stype = (M->Stype == SLU_DN) ? SLU_NC : (M->Stype == SLU_SC ? SLU_NC : (M->Stype == SLU_NC ? SLU_SC : SLU_DN)); break;
     case M_DTYPE1: case M_DTYPE2: case M_DTYPE3: M->Dtype = dts[(T->id + 1 + (kind - M_DTYPE1)) % 4]; break;
@@ -61,7 +62,7 @@ typedef struct { int pos; int code; const char *what; } corr;
 #define ARG_FACT_NOT_DOFACT 712
 #define ARG_INCX0 713
 #define ARG_INCY0 714
-#define MLIST(pos, base) { pos, base + M_NONSQUARE, "non-square" }, { pos, base + M_NEGATIVE, "negative dimension" }, { pos, base + M_STYPE, "wrong Stype" }, { pos, base + M_DTYPE1, "wrong Dtype" }, { pos, base + M_DTYPE2, "wrong Dtype" }, { pos, base + M_DTYPE3, "wrong Dtype" }, { pos, base + M_MTYPE, "wrong Mtype" }
+#define MLIST(pos, base) { pos, base + M_NONSQUARE, "non-square" }, { pos, base + M_NONSQUARE_ROWS, "non-square (nrow = ncol+1)" }, { pos, base + M_NEGATIVE, "negative dimension" }, { pos, base + M_STYPE, "wrong Stype" }, { pos, base + M_DTYPE1, "wrong Dtype" }, { pos, base + M_DTYPE2, "wrong Dtype" }, { pos, base + M_DTYPE3, "wrong Dtype" }, { pos, base + M_MTYPE, "wrong Mtype" }
 #define DLIST(pos, base) { pos, base + D_NCOLNEG, "ncol < 0" }, { pos, base + D_LDA, "lda < n" }, { pos, base + D_STYPE, "wrong Stype" }, { pos, base + D_DTYPE1, "wrong Dtype" }, { pos, base + D_DTYPE2, "wrong Dtype" }, { pos, base + D_DTYPE3, "wrong Dtype" }, { pos, base + D_MTYPE, "wrong Mtype" }
 static const corr T_GSSV[] = { { 1, ARG_FACT_NOT_DOFACT, "Fact != DOFACT" }, { 1, OPT_FACT_HI, "Fact above enum" }, { 1, OPT_FACT_LO, "Fact below enum" }, MLIST(2, ARG_A), DLIST(7, ARG_B) };
 static const corr T_GSSVX[] = { { 1, OPT_FACT_HI, "Fact above enum" }, { 1, OPT_FACT_LO, "Fact below enum" }, { 1, OPT_TRANS_HI, "Trans above enum" }, { 1, OPT_TRANS_LO, "Trans below enum" }, { 1, OPT_EQUIL_HI, "Equil above enum" }, { 1, OPT_EQUIL_LO, "Equil below enum" },
@@ -72,7 +73,7 @@ static const corr T_GSRFS[] = { { 1, ARG_TRANS_HI, "trans above enum" }, { 1, AR
     { 10, ARG_B + D_LDA, "ldb < n" }, { 10, ARG_B + D_STYPE, "wrong Stype" }, { 10, ARG_B + D_DTYPE1, "wrong Dtype" }, { 10, ARG_B + D_MTYPE, "wrong Mtype" }, { 11, ARG_X + D_LDA, "ldx < n" }, { 11, ARG_X + D_STYPE, "wrong Stype" }, { 11, ARG_X + D_DTYPE1, "wrong Dtype" }, { 11, ARG_X + D_MTYPE, "wrong Mtype" } };
 static const corr T_GSCON[] = { { 1, ARG_NORM, "bad norm letter" }, MLIST(2, ARG_L), MLIST(3, ARG_U) };
 static const corr T_GSEQU[] = { { 1, ARG_A + M_NEGATIVE, "negative dimension" }, { 1, ARG_A + M_STYPE, "wrong Stype" }, { 1, ARG_A + M_DTYPE1, "wrong Dtype" }, { 1, ARG_A + M_DTYPE2, "wrong Dtype" }, { 1, ARG_A + M_DTYPE3, "wrong Dtype" }, { 1, ARG_A + M_MTYPE, "wrong Mtype" } };
-static const corr T_TRSV[] = { { 1, ARG_UPLO, "bad uplo letter" }, { 2, ARG_TRANSC, "bad trans letter" }, { 3, ARG_DIAG, "bad diag letter" }, { 4, ARG_L + M_NONSQUARE, "L non-square" }, { 4, ARG_L + M_NEGATIVE, "L negative" }, { 5, ARG_U + M_NONSQUARE, "U non-square" }, { 5, ARG_U + M_NEGATIVE, "U negative" } };
+static const corr T_TRSV[] = { { 1, ARG_UPLO, "bad uplo letter" }, { 2, ARG_TRANSC, "bad trans letter" }, { 3, ARG_DIAG, "bad diag letter" }, { 4, ARG_L + M_NONSQUARE, "L non-square" }, { 4, ARG_L + M_NONSQUARE_ROWS, "L non-square (rows)" }, { 4, ARG_L + M_NEGATIVE, "L negative" }, { 5, ARG_U + M_NONSQUARE, "U non-square" }, { 5, ARG_U + M_NONSQUARE_ROWS, "U non-square (rows)" }, { 5, ARG_U + M_NEGATIVE, "U negative" } };
 static const corr T_GEMV[] = { { 1, ARG_TRANSC, "bad trans letter" }, { 3, ARG_A + M_NEGATIVE, "negative dimension" }, { 5, ARG_INCX0, "incx = 0" }, { 8, ARG_INCY0, "incy = 0" } };
 #define TL(t) t, (int)(sizeof t / sizeof *t)
 static const struct { const char *name; const corr *tab; int n; } ROUT[NROUT] = {
